@@ -1,7 +1,8 @@
 (* C04 — With backpressure the stream is an exact, ordered edit script.
    Theorems only; stated for an arbitrary message algebra, callbacks, read mask and history. *)
 From SC Require Import Base.Prelude Resource.Impl Resource.Spec Resource.Pull Resource.ImplProofs
-  Resource.SpecProofs Resource.PullProofs Resource.Pull04Proofs Resource.Flat Resource.Judge.
+  Resource.SpecProofs Resource.PullProofs Resource.Pull04Proofs Resource.HeldProofs Resource.Held04Proofs
+  Resource.Flat Resource.Judge.
 
 Section C04.
   Variable M : Type.
@@ -176,7 +177,81 @@ Section C04.
       try discriminate.
     inversion Hr. subst. reflexivity.
   Qed.
+  (* ---- a collection with an equivalence, the code since /repo 3a50d70: the held map ----
+     ([pull_collection_held]; the theorems C04_collection_equivalence_exact / _masked_out_ / _visible_
+     above are about the old-against-new comparison it replaced, which is the same stream for
+     equivalence RELATIONS on real histories: C04_oldnew_v0_is_held_for_equivalence_relations) *)
+  (* EVERY comparer, read mask, include predicate and history (deletes, re-adds, items leaving and
+     re-entering the include filter): the subscriber starts out holding what List with its options
+     shows; the stream is the seed, then exactly those changes of the equivalence-free stream
+     ([offered]: include, then read mask) whose new value is NOT equivalent to what the subscriber holds
+     for that id at that moment ([ideal_filter]: the new value of the last change delivered for the id) *)
+  Theorem C04_held_stream_exact : forall cmp (ro : ropts M rmask) ops s s' outs,
+    sorted str_ltb (c_items s) -> run spec_step s ops = (s', outs) ->
+    pull_collection_held r_filter (Some cmp) s ro (flat_map snd outs) =
+    (if ro_updates_only ro then [] else seeds r_filter ro (included ro (c_items s))) ++
+    ideal_filter cmp (fun id => shown r_filter ro id (c_items s)) (offered r_filter ro (flat_map snd outs)).
+  Proof. intros. eapply held_stream_exact; eauto. Qed.
+
+  (* without an equivalence nothing is taken out: seed ++ offered, the stream of C04_history_stream *)
+  Theorem C04_held_without_equivalence : forall (ro : ropts M rmask) (s : cstate M) evs,
+    pull_collection_held r_filter None s ro evs = pull_collection r_filter None s ro evs /\
+    pull_collection_held r_filter None s ro evs =
+    (if ro_updates_only ro then [] else seeds r_filter ro (included ro (c_items s))) ++ offered r_filter ro evs.
+  Proof. intros. split; [apply held_none_is_pull_collection|apply no_equivalence_stream]. Qed.
+
+  (* one change at a time: delivered iff its new value is not equivalent to what the subscriber holds *)
+  Theorem C04_held_delivered_iff_not_equivalent_to_held : forall cmp cs (w : view M) (c : cchange M),
+    ideal_filter cmp w (cs ++ [c]) =
+    ideal_filter cmp w cs ++
+    (if cmp (holds_after w (ideal_filter cmp w cs) (cc_id c)) (cc_new c) then [] else [c]).
+  Proof. intros. apply ideal_last_delivered. Qed.
+
+  (* a REMOVE (the item was deleted, or left the include filter) is delivered to a subscriber that
+     holds a value and leaves it holding nothing; the next change bringing a value for the id -- a
+     re-add, a return into the filter -- is then delivered WHATEVER the value, also one equivalent to
+     what was held before the REMOVE (comparers that tell a value from nothing) *)
+  Theorem C04_remove_delivered_holds_nothing : forall cmp (w : view M) cs (c : cchange M) x,
+    holds_after w (ideal_filter cmp w cs) (cc_id c) = Some x -> cc_new c = None ->
+    cmp (Some x) None = false ->
+    ideal_filter cmp w (cs ++ [c]) = ideal_filter cmp w cs ++ [c] /\
+    holds_after w (ideal_filter cmp w (cs ++ [c])) (cc_id c) = None.
+  Proof. intros. eapply remove_delivered_holds_nothing; eauto. Qed.
+
+  Theorem C04_readd_after_remove_delivered : forall cmp (w : view M) cs (c : cchange M) v,
+    holds_after w (ideal_filter cmp w cs) (cc_id c) = None -> cc_new c = Some v ->
+    cmp None (Some v) = false ->
+    ideal_filter cmp w (cs ++ [c]) = ideal_filter cmp w cs ++ [c].
+  Proof. intros. eapply readd_after_remove_delivered; eauto. Qed.
+
+  (* what the subscriber has folded is, id by id, EQUIVALENT to the final List with its options
+     (reflexive comparer; any mask, any include, every history) *)
+  Theorem C04_held_fold_equivalent_to_final_list : forall cmp (ro : ropts M rmask) ops s s' outs,
+    (forall a, cmp a a = true) ->
+    ro_updates_only ro = false -> sorted str_ltb (c_items s) ->
+    run spec_step s ops = (s', outs) ->
+    forall id,
+      cmp (vlookup id (fold_view (pull_collection_held r_filter (Some cmp) s ro (flat_map snd outs))))
+          (vlookup id (c_list r_filter s' (ro_mask ro) (ro_include ro))) = true.
+  Proof. intros. eapply held_fold_equiv_list; eauto. Qed.
+
+  (* the old-against-new model is the held model for equivalence relations, on every history *)
+  Theorem C04_oldnew_v0_is_held_for_equivalence_relations : forall cmp (ro : ropts M rmask) ops s s' outs,
+    (forall a, cmp a a = true) -> (forall a b, cmp a b = cmp b a) ->
+    (forall a b c, cmp a b = true -> cmp b c = true -> cmp a c = true) ->
+    sorted str_ltb (c_items s) -> run spec_step s ops = (s', outs) ->
+    pull_collection r_filter (Some cmp) s ro (flat_map snd outs) =
+    pull_collection_held r_filter (Some cmp) s ro (flat_map snd outs).
+  Proof. intros. eapply oldnew_is_held_for_equivalence_relations; eauto. Qed.
 End C04.
+
+Print Assumptions C04_held_stream_exact.
+Print Assumptions C04_held_without_equivalence.
+Print Assumptions C04_held_delivered_iff_not_equivalent_to_held.
+Print Assumptions C04_remove_delivered_holds_nothing.
+Print Assumptions C04_readd_after_remove_delivered.
+Print Assumptions C04_held_fold_equivalent_to_final_list.
+Print Assumptions C04_oldnew_v0_is_held_for_equivalence_relations.
 
 Print Assumptions C04_history_one_event_per_effective_write.
 Print Assumptions C04_history_stream.
@@ -253,3 +328,41 @@ Example C04_nonvacuous_zero_write_time :
   map (fun c => (cc_kind c, cc_time c)) cs = [(KAdd, z); (KRemove, z)] /\
   map (fun c => (cc_seed c, cc_time c)) cs2 = [(true, z)].
 Proof. vm_compute. split; reflexivity. Qed.
+
+(* the old-against-new comparison (the code before /repo 3a50d70) is NOT the held map for a comparer
+   that is not transitive: two steps of 1 under "within 1" are each suppressed and the subscriber
+   never hears of a value 2 away from the one it holds; the held map delivers the second *)
+Definition C04_within1 (x y : option Z) : bool :=
+  match x, y with Some a, Some b => Z.abs (a - b) <=? 1 | None, None => true | _, _ => false end.
+Theorem C04_oldnew_v0_refuted :
+  let ro := mkR (None : option unit) true None in
+  let evs := [mkCE "a" 1 KUpdate (Some 0) (Some 1); mkCE "a" 2 KUpdate (Some 1) (Some 2)] in
+  c_forward_gen (fun (_ : unit) (m : Z) => m) (Some C04_within1) false false ro evs = [] /\
+  map (@cc_new Z) (c_forward_held (fun (_ : unit) (m : Z) => m) (Some C04_within1) ro [("a"%string, Some 0)] evs) = [Some 2].
+Proof. vm_compute. split; reflexivity. Qed.
+
+(* non-vacuity of the held-map theorems: delete then re-add of an EQUAL value under no-duplicates is
+   REMOVE then ADD (the subscriber is told the item exists again) ... *)
+Example C04_nonvacuous_readd_equivalent :
+  let o := mkFWO None None None None false None false None false None None true false false false in
+  let '(cs, _) := model_cstream None None (Some EqAll) [FUpdate "a" (mkF 1 1 0) o []] (mkFRO None false None)
+                    [FDelete "a" o; FAdd "a" (mkF 1 1 0) o []; FUpdate "a" (mkF 1 1 0) o []] in
+  map (fun c => (cc_kind c, cc_old c, cc_new c, cc_seed c)) cs =
+  [(KAdd, None, Some (mkF 1 1 0), true); (KRemove, Some (mkF 1 1 0), None, false); (KAdd, None, Some (mkF 1 1 0), false)].
+Proof. vm_compute. reflexivity. Qed.
+
+(* ... and so is leaving the include filter and coming back with the value last sent *)
+Example C04_nonvacuous_reenter_equivalent :
+  let o := mkFWO None None None None false None false None false None None true false false false in
+  let '(cs, s2) := model_cstream None None (Some (EqField Fb)) [FUpdate "a" (mkF 2 5 0) o []]
+                    (mkFRO None false (Some (PFieldGe Fa 2)))
+                    [FUpdate "a" (mkF 1 5 0) o []; FUpdate "a" (mkF 3 5 0) o []; FUpdate "a" (mkF 4 5 0) o []] in
+  map (fun c => (cc_kind c, cc_new c)) cs =
+  [(KAdd, Some (mkF 2 5 0)); (KRemove, None); (KAdd, Some (mkF 3 5 0))] /\
+  c_list fr_filter s2 None (Some (interp_pred (PFieldGe Fa 2))) = [("a"%string, mkF 4 5 0)].
+Proof. vm_compute. split; reflexivity. Qed.
+
+(* the executed equivalences tell a value from nothing (hypothesis of the two REMOVE / re-ADD theorems) *)
+Example C04_nonvacuous_equivalence_presence : forall e v,
+  interp_eqv e None (Some v) = false /\ interp_eqv e (Some v) None = false.
+Proof. intros [|f] v; split; reflexivity. Qed.
